@@ -147,6 +147,12 @@ def check_seal_alloc(rep, facts, a, inplace_key, rule='R14.2'):
     tagsz = None
     ok_init = False
     # alternative idiom: buf = plaintext.to_vec(); tag = seal_in_place(&mut buf); buf.extend_from_slice(&tag.0)
+    empty_init = init[0] == 'call' and (init[1].endswith('Vec::with_capacity') or init[1].endswith('Vec::new') or init[1].endswith('Vec::<T>::with_capacity') or init[1].endswith('Vec::<T>::new'))
+    if empty_init and len(ws) == 3 and all(w[3] for w in ws) and ws[0][2][0] == 'call' and ws[0][2][1].endswith('::extend_from_slice') and \
+            not ws[0][1] and ws[0][2][2][1] == ('param', 2):
+        # Vec::with_capacity(n) + extend_from_slice(plaintext) is plaintext.to_vec() (the capacity is not observable)
+        init = ('call', 'std::slice::<impl [T]>::to_vec', (('param', 2),))
+        ws = ws[1:]
     if init[0] == 'call' and init[1].endswith('::to_vec') and init[2] == (('param', 2),):
         descs = [(w[1], w[2]) for w in ws]
         okalt = len(ws) == 2 and all(w[3] for w in ws)
@@ -210,16 +216,45 @@ def strip_site(t):
     return strip_sites(t)
 
 
+def open_split(a, param=2):
+    """where and at which index the allocating open divides its input: one `split_at(k)` of the parameter, or the two
+    complementary index expressions `[..k]` / `[k..]`.  -> {'k': term, 'site': block, 'form': str} or None"""
+    sps = []
+    idxs = []
+    for bi, t, c in a.calls():
+        if c is None or not t['args']:
+            continue
+        if a.arg_val(bi, 0) != ('param', param):
+            continue
+        if c['name'] == 'split_at':
+            sps.append(bi)
+        elif c['name'] == 'index' and len(t['args']) == 2:
+            r = a.arg_val(bi, 1)
+            if r[0] == 'agg' and r[2].rsplit('::', 1)[0] in ('core::ops::RangeTo', 'core::ops::RangeFrom', 'core::ops::Range'):
+                f = dict(zip(r[4], r[3]))
+                idxs.append((bi, f.get('start'), f.get('end')))
+            else:
+                idxs.append((bi, 'other', 'other'))
+    if len(sps) == 1 and not idxs:
+        return {'k': a.arg_val(sps[0], 1), 'site': sps[0], 'form': 'split_at', 'sites': [sps[0]]}
+    if not sps and len(idxs) == 2:
+        heads = [x for x in idxs if x[1] is None and x[2] not in (None, 'other')]
+        tails = [x for x in idxs if x[2] is None and x[1] not in (None, 'other')]
+        if len(heads) == 1 and len(tails) == 1 and strip_site(heads[0][2]) == strip_site(tails[0][1]):
+            return {'k': heads[0][2], 'site': heads[0][0], 'form': 'index', 'sites': [heads[0][0], tails[0][0]]}
+    return None
+
+
 def check_open_accepts(rep, facts, a, rule='R14.2'):
     """the allocating open rejects up front only inputs for which no (ciphertext, tag) split exists (len < Nt):
     everything else is handed to the in-place open (in particular len == Nt, the sealing of the empty plaintext)"""
     from .common import cmp_guard
     fn = a.body.key
-    sp = a.calls(lambda c: c['name'] == 'split_at')
-    if len(sp) != 1:
+    os_ = open_split(a)
+    if os_ is None:
         return
-    sbi = sp[0][0]
-    idx = a.arg_val(sbi, 1)
+    sbi = os_['site']
+    idx = os_['k']
     p = a.term_point(sbi)
     from .common import checked_sub_some
     cs = checked_sub_some(a, facts, idx)
@@ -227,7 +262,8 @@ def check_open_accepts(rep, facts, a, rule='R14.2'):
         rep.ok(rule, fn, 'open-accepts-every-split', 'checked_sub: rejected exactly when len < Nt')
         return
     if idx[0] == 'bin' and idx[1] == 'Sub' and idx[2] == ('len', ('param', 2)):
-        g = cmp_guard(a, sbi, idx[2], idx[3])
+        gs = [cmp_guard(a, b2, idx[2], idx[3]) for b2 in os_['sites']]
+        g = {'guards': min(x['guards'] for x in gs), 'lt': any(x['lt'] for x in gs), 'eq': all(x['eq'] for x in gs), 'gt': all(x['gt'] for x in gs)}
         rep.check(g['guards'] >= 1 and not g['lt'] and g['eq'] and g['gt'], rule, fn, 'open-accepts-every-split',
                   'split reachable for len < Nt: %s, len == Nt: %s, len > Nt: %s' % (g['lt'], g['eq'], g['gt']),
                   'open() hands every input with len >= Nt to the in-place open (a tag-only ciphertext is the empty message)', where(a, p))
@@ -249,27 +285,30 @@ def check_open_alloc(rep, facts, a, inplace_key, rule='R14.2', strict_accept=Tru
     args = [a.arg_val(bi, i) for i in range(4)]
     bufv = a.deref_val(args[1], p)
     tagv = a.deref_val(args[3], p)
-    sp = None
+    os_ = open_split(a)
+    k = strip_site(os_['k']) if os_ else None
+    head = ('addr', ('pointee', ('param', 2)), (('slice', None, k),), False) if os_ else None
+    tail = ('addr', ('pointee', ('param', 2)), (('slice', k, None),), False) if os_ else None
     okb = False
-    if bufv[0] == 'call' and bufv[1].endswith('::to_vec') and len(bufv[2]) == 1:
-        x = bufv[2][0]
-        if x[0] == 'field' and x[1] == '0' and x[2][0] == 'call' and x[2][1].endswith('::split_at'):
-            sp = x[2]
-            okb = sp[2][0] == ('param', 2) and args[1][0] == 'addr' and not [e for e in args[1][2] if e[0] != 'f']
+    if bufv[0] == 'call' and bufv[1].endswith('::to_vec') and len(bufv[2]) == 1 and os_:
+        okb = strip_site(bufv[2][0]) == head and args[1][0] == 'addr' and not [e for e in args[1][2] if e[0] != 'f']
     rep.check(okb, 'R06.2', fn, 'buffer-is-head', pp(bufv)[:200],
-              'the whole copy of split_at(ciphertext, len-Nt).0 is handed to the in-place open', where(a, p))
+              'the whole copy of ciphertext[..len-Nt] (first half of the one split) is handed to the in-place open', where(a, p))
     okt = False
-    if tagv[0] == 'mem' and len(tagv[3]) == 1 and tagv[3][0][3]:
+    if tagv[0] == 'mem' and len(tagv[3]) == 1 and tagv[3][0][3] and os_:
         w = tagv[3][0]
         d = w[2]
         if d[0] == 'call' and d[1].endswith('copy_from_slice') and w[1] == (('f', '0'),):
-            src = d[2][1]
-            okt = sp is not None and src == ('field', '1', sp)
-    if not okt and tagv[0] == 'okval' and tagv[1][0] == 'call' and tagv[1][1] == 'Deserializable::from_bytes' and tagv[1][4] and \
-            (tagv[1][4][2] or '').startswith('aead::AeadTag<') and sp is not None and tagv[1][2] == (('field', '1', sp),):
+            okt = strip_site(d[2][1]) == tail
+    if not okt and os_ and tagv[0] == 'okval' and tagv[1][0] == 'call' and tagv[1][1] == 'Deserializable::from_bytes' and tagv[1][4] and \
+            (tagv[1][4][2] or '').startswith('aead::AeadTag<') and strip_site(tagv[1][2][0]) == tail:
         okt = True      # AeadTag::from_bytes = exact-length guard + whole copy (C12 R12.2)
+    if not okt and os_ and tagv[0] == 'agg' and tagv[2].startswith('aead::AeadTag::') and len(tagv[3]) == 1:
+        x = tagv[3][0]
+        if x[0] == 'call' and x[1].endswith('::clone_from_slice') and len(x[2]) == 1 and strip_site(x[2][0]) == tail:
+            okt = True      # GenericArray::clone_from_slice: a whole copy, panics unless the lengths agree (C13)
     rep.check(okt, 'R06.2', fn, 'tag-is-tail', pp(tagv)[:240],
-              'the tag is a whole copy of split_at(ciphertext, len-Nt).1 (the last Nt bytes)', where(a, p))
+              'the tag is a whole copy of ciphertext[len-Nt..] (second half of the same split: the last Nt bytes)', where(a, p))
     rep.check(args[2] == ('param', 3), 'R06.2', fn, 'aad-passthrough', pp(args[2]), 'the aad parameter, unmodified', where(a, p))
     # result = that buffer
     for s, tt, cls in ret_classes(a, facts):
@@ -284,7 +323,9 @@ def check_open_alloc(rep, facts, a, inplace_key, rule='R14.2', strict_accept=Tru
         for i in range(len(t2['args'])):
             if a.arg_val(b2, i) == ('param', 2):
                 uses.append(c2['name'] if c2 else '?')
-    rep.check(sorted(set(uses)) == ['len', 'split_at'] and uses.count('split_at') == 1, 'R06.2', fn, 'input-uses', '%s' % sorted(uses),
+    one_split = (sorted(set(uses)) == ['len', 'split_at'] and uses.count('split_at') == 1) or \
+        (sorted(set(uses)) == ['index', 'len'] and uses.count('index') == 2 and os_ is not None and os_['form'] == 'index')
+    rep.check(one_split, 'R06.2', fn, 'input-uses', '%s' % sorted(uses),
               'the input is only measured and split once (no ignored trailing bytes, no second slice)', where(a))
 
 
